@@ -388,3 +388,125 @@ def c03(pid, tier, replay):
                      "(validator ranges versus field widths) and truncation to each field's unit",
                      "DNS names are well-formed and option element counts small (the property's own quantifier)",
                      "route prefixes use byte-aligned lengths (the pinned ndp decoder drops a trailing partial byte of a route prefix)"])
+
+
+# ------------------------------------------------------------------ C17 ----
+OBS_PKGS = {"internal/corerad": ["common/vf_util.go", "common/vf_ra.go", "corerad/vf_world.go", "corerad/vf_adv.go",
+                                 "corerad/vf_mdelay.go", "corerad/vf_verify.go", "corerad/vf_server.go", "corerad/vf_observe.go"],
+            "internal/system": ["system/vf_export.go"]}
+
+
+def c17(pid, tier, replay):
+    t0 = time.time()
+    thorough = tier == "thorough"
+    tmp = vf.mktmp("vf-C17-")
+    rng = random.Random(vf.seed() * 4177 + 17)
+    if replay:
+        vecs = json.load(open(replay))["vectors"]
+    else:
+        base = ra_docs(tier, rng)
+        vecs = []
+        dbg = [("", False, False), ("127.0.0.1:9430", True, False), ("127.0.0.1:9430", False, True), ("[::1]:9430", True, True),
+               ("", True, True)]
+        for n, b in enumerate(base):
+            d = copy.deepcopy(b["doc"])
+            # re-render with a debug table variant (the abstract doc is the stripped one: rebuild text through cfgdoc is not
+            # possible from it, so append the debug table to the rendered text)
+            ad, pr, pp = dbg[n % len(dbg)]
+            toml = b["toml"]
+            if ad != "" or pr or pp:
+                toml += "[debug]\n" + ("address = \"%s\"\n" % ad if ad else "") + ("prometheus = true\n" if pr else "") + ("pprof = true\n" if pp else "")
+            d["debug"] = {"addr": "ok" if ad else "empty", "prometheus": pr, "pprof": pp}
+            sys_ = dict(b["sys"])
+            sys_["auto"] = n % 3 != 0
+            for lc in ("up", "never"):
+                vecs.append({"kind": "obs", "id": "c17-%05d-%s" % (n, lc), "toml": toml, "doc": d, "sys": sys_, "lifecycle": lc,
+                             "fwderr": (n % 17 == 5)})
+        # the minimal default configuration of `corerad -init`, before any interface is up (D11)
+        minimal = C.document([C.table(name="eth0", prefixes=[C.prefix()]), C.table(name="eth1", monitor=True, advertise=False)],
+                             debug_addr="127.0.0.1:9430", prometheus=True)
+        for lc in ("never", "up"):
+            vecs.append({"kind": "obs", "id": "c17-minimal-" + lc, "toml": C.render(minimal), "doc": C.strip(minimal),
+                         "sys": dict(sys_states(random.Random(3), 1)[0], auto=True, addrfail=False), "lifecycle": lc, "fwderr": False})
+        # two stanzas that produce the same label set (known finding D12)
+        dup = C.document([C.table(rdnss_=[C.rdnss(["2001:db8::53"]), C.rdnss(["2001:db8::53"], K("val", 600000))])],
+                         debug_addr="127.0.0.1:9430", prometheus=True)
+        vecs.append({"kind": "obs", "id": "c17-dup-rdnss", "toml": C.render(dup), "doc": C.strip(dup),
+                     "sys": dict(sys_states(random.Random(4), 1)[0], auto=True), "lifecycle": "up", "fwderr": False})
+    crashed = []
+    try:
+        outs = checks_vec.run_vectors(tmp, vecs, OBS_PKGS, "internal/corerad", "^TestVF_Observe$", "C17")
+    except vf.ProductCrash as c:
+        # a collector goroutine killed the process: find the vector in progress in the partial outputs
+        outs = []
+        import glob
+        for f in glob.glob(os.path.join(tmp, "C17-out-*.ndjson")):
+            last, done = None, set()
+            for line in open(f, errors="replace"):
+                try:
+                    e = json.loads(line)
+                except ValueError:
+                    break
+                if e.get("ev") == "reset":
+                    last = e["id"]
+                elif e.get("ev") == "obs":
+                    done.add(e["id"])
+            if last and last not in done:
+                crashed.append(last)
+            outs.append(f)
+        msg = [l for l in c.out.splitlines() if l.startswith("panic:") or l.startswith("fatal error:")][:1]
+        print("NOTE the code under test crashed the harness process: %s" % (msg or ["crash"])[0][:200])
+    rows = []
+    for f in outs:
+        for line in open(f, errors="replace"):
+            try:
+                e = json.loads(line)
+            except ValueError:
+                break
+            if e.get("ev") == "obs":
+                rows.append(e)
+    tmpf = os.path.join(tmp, "C17-obs.ndjson")
+    vf.write_ndjson(tmpf, rows)
+    viols, _ = checks_vec.validate_vectors(tmp, [tmpf], module="ObsTrace", lines_per_batch=300)
+    by_id = {v["id"]: v for v in vecs}
+    kf = [f for f in vf.known_findings().get("findings", []) if f.get("property") == pid]
+    rc, shown, known = 0, 0, {}
+    for cid in crashed:
+        path = vf.save_replay(pid, cid, {"property": pid, "clause": "c17-process-crashed-during-scrape-or-request", "vectors": [by_id.get(cid)]})
+        print("VIOLATION property=C17 replay=%s clause=c17-process-crashed-during-scrape-or-request vector=%s" % (path, cid))
+        rc, shown = 1, shown + 1
+    for v in viols:
+        if v["viol"].startswith("KF-"):
+            m = [f for f in kf if f.get("clause") == v["viol"]]
+            if m:
+                known[m[0]["what"]] = known.get(m[0]["what"], 0) + 1
+                continue
+        shown += 1
+        if shown <= 10:
+            path = vf.save_replay(pid, v["id"], {"property": pid, "clause": v["viol"], "vectors": [by_id.get(v["id"])]})
+            print("VIOLATION property=C17 replay=%s clause=%s vector=%s" % (path, v["viol"], v["id"]))
+        rc = 1
+    for w in sorted(known):
+        print("KNOWN-FINDING: property=C17 %s" % w)
+    nacc = sum(1 for r in rows if r["out"].get("accepted"))
+    cov = {"states": len(rows) + 1, "transitions": len(rows) or 1, "traces_validated_against_impl": len(rows),
+           "samples": [{"id": vecs[0]["id"], "toml": vecs[0]["toml"][:400], "lifecycle": vecs[0]["lifecycle"]}, rows[0]["out"]["http"] if rows else {}],
+           "evaluations": len(vecs), "distinct_nontrivial": len({(v["toml"], v["lifecycle"]) for v in vecs if "[[interfaces." in v["toml"]}),
+           "accepted_documents": nacc, "violating": shown, "known_finding_vectors": sum(known.values()),
+           "rule": "vectors = the C01 documents (every stanza kind incl. pref64, wildcards, deprecated; names groups; multi-table) x five "
+                   "debug-table variants x system states x lifecycle {never prepared, up} x forwarding-read failure, plus the minimal "
+                   "default configuration before any interface is up and a duplicate-label document. Wiring as in cmd/corerad/main.go "
+                   "(pedantic registry, metricslite Prometheus backend, promhttp, crhttp.Handler sharing the parsed interfaces). "
+                   "TLC compares the gathered samples with the projection of BuildRA and the API JSON with its whole-second view, and "
+                   "checks route gating. non-trivial = documents with at least one option stanza x lifecycle",
+           "exhaustive": False}
+    vf.write_evidence(pid, tier, "model_checking", cov,
+                      ["lifecycle 'never' = no plugin has been prepared (no hardware address, wildcards not expandable); 're-initialising' "
+                       "leaves the plugins prepared, so it coincides with 'up' for this surface",
+                       "a collector panic kills the harness process; that is reported as a violation for the vector in progress",
+                       "the expected RA uses Config!Elab(doc) (bound to the real parser by C02) and RA!BuildRA",
+                       "interleavings of scrapes with Prepare itself (a data race on the plugin function fields) are not forced"],
+                      time.time() - t0, violations=shown)
+    print("C17 %s: %d vectors (%d accepted) scraped / requested on the real wiring and judged by TLC, %d violation(s), %.0fs"
+          % (tier, len(rows), nacc, shown, time.time() - t0))
+    return rc
